@@ -154,6 +154,8 @@ def judge_step(c, key, spec, real, stats, rep):
         mism.append("fwd %s (%s) vs %s" % (o.get("fwd"), o.get("detail"), sev.get("fwd")))
     if sev["kind"] == "out" and bool(o.get("enc")) != bool(sev.get("enc")):
         mism.append("enc %s (%s) vs %s" % (o.get("enc"), o.get("detail"), sev.get("enc")))
+    if snap.get("odd_time"):
+        mism.append("the server passed a timestamp to the authorisation layer that is not the current time (%d calls)" % snap["odd_time"])
     real_assoc = {a[0]: a[1] for a in snap["assoc"]}
     spec_assoc = {k: v for k, v in spec["assoc"].items() if v != "none"}
     if real_assoc != spec_assoc:
@@ -271,8 +273,8 @@ def run(c):
     else:
         g = json.load(open(gout))
         for x in g["log"]:
-            if "replies" in x:   # WireGuard keepalives (empty payload) are not replies
-                x["replies"] = [rp for rp in x["replies"] if rp.get("len", 1) > 0]
+            if "replies" in x:   # WireGuard keepalives (empty payload) and timer-driven handshake messages are not payloads
+                x["replies"] = [rp for rp in x["replies"] if rp.get("len", 0) > 0]
         steps = {x["step"]: x for x in g["log"]}
         c.cov["gateway_loop"] = g["log"]
         for name in ("register", "reregister", "supersede"):
